@@ -99,6 +99,22 @@ fn scenario(ctx: &Ctx, idx: u64) -> Report {
             });
         }
 
+        // ---- a fire-and-forget early announce: search(hash, true) whose stream is dropped at once, before
+        // the bootstrap has completed (further search() calls follow). It must still be carried out:
+        // judged on the wire against the same call made right after bootstrap.
+        let forget_early = gen::rand_id(&mut rng);
+        let forget_late = gen::rand_id(&mut rng);
+        let fire_and_forget = rng.gen_bool(0.4);
+        if fire_and_forget {
+            let (dht5, net5) = (dht.clone(), net.clone());
+            let at = rng.gen_range(0..=t_up + SEC);
+            tokio::spawn(async move {
+                sleep_us(at).await;
+                let _ = net5.now();
+                drop(dht5.search(btdht::InfoHash::from(forget_early), true));
+            });
+        }
+
         // ---- early searches, issued at chosen instants relative to start
         let n_early = rng.gen_range(1..=10);
         let mut handles = Vec::new();
@@ -162,6 +178,10 @@ fn scenario(ctx: &Ctx, idx: u64) -> Report {
             return report;
         }
         report.count("runs_with_reference");
+        if fire_and_forget {
+            // the control: the same fire-and-forget announce right after bootstrap
+            drop(dht.search(btdht::InfoHash::from(forget_late), true));
+        }
 
         let mut results: Vec<(Micros, bool, SearchResult)> = Vec::new();
         for (at, announce, h) in handles {
@@ -177,6 +197,29 @@ fn scenario(ctx: &Ctx, idx: u64) -> Report {
             }
         }
         settle().await;
+        if fire_and_forget {
+            sleep_us(30 * SEC).await;
+            let announces_for = |ih: &Id| -> usize {
+                net.log()
+                    .iter()
+                    .filter(|w| w.ev == crate::simnet::Ev::Send && w.src == addr)
+                    .filter_map(|w| crate::refcodec::Krpc::parse(&w.data).ok())
+                    .filter(|k| matches!(&k.body, crate::refcodec::Body::Query { q: crate::refcodec::Query::AnnouncePeer { info_hash, .. }, .. } if info_hash == ih))
+                    .count()
+            };
+            let (early, late) = (announces_for(&forget_early), announces_for(&forget_late));
+            if late > 0 {
+                report.count("fire_and_forget_early_announces_judged");
+                if early == 0 {
+                    report.violation(
+                        "C16",
+                        "early-fire-and-forget-announce-dropped",
+                        format!("search(hash, true) issued before bootstrap completion with its stream dropped at once was never carried out (0 announce_peer sent), the same call right after bootstrap sent {late}"),
+                        info.clone(),
+                    );
+                }
+            }
+        }
         for (at, announce, r) in &results {
             let early = r.started < t_boot;
             if !early {
